@@ -166,9 +166,23 @@ def model_key(kw, env_color):
 
 
 # ------------------------------------------------------------------ generation
+VT_OPTS = ('violation_type', 'violation_door_type', 'violation_param_type', 'violation_return_type')
+
+
 def gen_kw(rng, spice):
     n = rng.choice([0, 1, 1, 2, 2, 3, 4])
     names = rng.sample(OPTS, n)
+    if rng.random() < 0.12:
+        # focus on the four violation-type options, which are validated and defaulted from one another: any subset of
+        # them (all four included) with at most one or two of the values invalid
+        names = [o for o in VT_OPTS if rng.random() < 0.7] + rng.sample([o for o in OPTS if o not in VT_OPTS], rng.choice([0, 0, 1]))
+        kw = {}
+        bad = set(rng.sample(names, min(len(names), rng.choice([0, 1, 1, 2])))) if names else set()
+        for name in names:
+            p = POOLS[OPT_POOL[name]]
+            pool = (p['invalid'] or p['valid']) if name in bad else [t for t in p['valid'] if t is not None or name not in VT_OPTS or rng.random() < 0.2]
+            kw[name] = rng.choice(pool)
+        return kw
     kw = {}
     for name in names:
         p = POOLS[OPT_POOL[name]]
